@@ -2,6 +2,8 @@
  * parse value output format
  */
 
+#include <ctype.h>
+
 #include "array.h"
 
 #include "convert.h"
@@ -24,11 +26,20 @@ extern int mpt_valfmt_parse(MPT_STRUCT(array) *arr, const char *base)
 	int curr;
 	
 	while ((curr = mpt_valfmt_get(&fmt, pos)) > 0) {
+		const char *end = pos;
 		int err;
+		/* remaining space is no format description */
+		while (isspace((unsigned char) *end)) {
+			++end;
+		}
+		if (!*end) {
+			pos = end;
+			break;
+		}
 		if ((err = mpt_valfmt_add(arr, fmt)) < 0) {
 			return err;
 		}
 		pos += curr;
 	}
-	return curr ? curr : pos - base;
+	return curr < 0 ? curr : pos - base;
 }
